@@ -17,6 +17,7 @@ mod mutate;
 mod ops;
 mod props;
 mod rng;
+mod rpc;
 mod run;
 mod world;
 
